@@ -146,5 +146,21 @@ func (o *finalOracle) atEnd() {
 			return
 		}
 	}
+	// two writable servers is a safety matter as well
+	nW := 0
+	for _, sv := range m.s.mysql.sorted() {
+		if sv.Registered && sv.Up && !sv.ReadOnly {
+			nW++
+		}
+	}
+	if nW > 1 {
+		m.violate(o.prop, "final", probClass(probs[0]), strings.Join(probs, "; "))
+		return
+	}
+	// everything else is "the cluster has been brought back": that needs a living manager
+	if d := m.s.daemons[m.lockOwner]; m.lockOwner == "" || d == nil || !d.alive {
+		m.probe("final_no_living_manager")
+		return
+	}
 	m.violate(o.prop, "final", probClass(probs[0]), strings.Join(probs, "; "))
 }
